@@ -1280,6 +1280,7 @@ condexpr(struct scope *s)
 	rt = r->type;
 #ifdef CPROC_VERIF
 	int vlw = (int)bitfieldwidth(l) == -1 ? 0 : (int)bitfieldwidth(l), vrw = (int)bitfieldwidth(r) == -1 ? 0 : (int)bitfieldwidth(r);
+	struct type *vlt = lt, *vrt = rt;  /* lt/rt are overwritten with the pointees in the pointer case */
 #endif
 	if (lt == rt) {
 		t = lt;
@@ -1314,7 +1315,7 @@ condexpr(struct scope *s)
 	}
 #ifdef CPROC_VERIF
 	vtrace("{\"e\":\"cond\",\"lt\":\"%s\",\"lw\":%d,\"rt\":\"%s\",\"rw\":%d,\"lnull\":%d,\"rnull\":%d,\"res\":\"%s\"}",
-		vtypename(lt), vlw, vtypename(rt), vrw, nullpointer(l), nullpointer(r), vtypename(t));
+		vtypename(vlt), vlw, vtypename(vrt), vrw, nullpointer(l), nullpointer(r), vtypename(t));
 #endif
 	e = eval(e);
 	if (e->kind == EXPRCONST && e->type->prop & PROPINT)
